@@ -335,7 +335,7 @@ def shard(ctx):
             elif reason is None:
                 if out[0] == 'refused':
                     ctx.violation('inst_refuses_when_applicable', 'instantiate refused an admissible instantiation', w)
-                elif got != tb.norm_py(exp):
+                elif got != tb.norm_py(exp) and tb.norm_eq(got) != tb.norm_eq(exp):
                     ctx.violation('inst_wrong_conclusion', 'instantiate returned a conclusion different from the documented simultaneous instantiation', dict(w, expected=tb.pretty(exp), got=tb.pretty(got)))
             elif out[0] == 'ok':
                 if reason == 'constraint':
